@@ -58,7 +58,23 @@ func c32Dict() *explore.Scenario {
 
 // renderJSON renders a parsed ClientHello in the JSON format of u_clienthello_json.go using the
 // VALUE-indexed dictionaries. ok=false if an element has no JSON representation.
-func renderJSON(h *wire.Hello) (doc []byte, ok bool, why string) {
+func renderJSON(h *wire.Hello) (doc []byte, ok bool, why string) { return renderJSONSpelled(h, false) }
+
+// jsonAltSpellings: the second spelling the JSON format accepts for an extension name, pinned here from
+// the registries (extension 34 is "delegated_credentials" at IANA and "delegated_credential" in
+// RFC 9345); the harness does not read it back from the table it is judging.
+var jsonAltSpellings = map[uint16]string{34: "delegated_credential"}
+
+func helloHasAltSpelling(h *wire.Hello) bool {
+	for _, e := range h.Exts {
+		if _, ok := jsonAltSpellings[e.Type]; ok {
+			return true
+		}
+	}
+	return false
+}
+
+func renderJSONSpelled(h *wire.Hello, alt bool) (doc []byte, ok bool, why string) {
 	name16 := func(m map[uint16]string, v uint16) (string, bool) {
 		if wire.IsGREASE(v) {
 			return "GREASE", true
@@ -132,6 +148,9 @@ func renderJSON(h *wire.Hello) (doc []byte, ok bool, why string) {
 		nm, okn := dicttls.DictExtTypeValueIndexed[e.Type]
 		if !okn {
 			return nil, false, fmt.Sprintf("extension %d has no name", e.Type)
+		}
+		if a, ok := jsonAltSpellings[e.Type]; ok && alt {
+			nm = a
 		}
 		m := map[string]any{"name": nm}
 		switch e.Type {
@@ -270,7 +289,14 @@ func c32JSON() *explore.Scenario {
 				r.Obs = "invalid-source"
 				return
 			}
-			doc, ok, why := renderJSON(h)
+			alt := false
+			if helloHasAltSpelling(h) {
+				alt = x.Choose("extension-name-spelling", 2) == 1
+				if alt {
+					name += " (RFC spelling of extension names)"
+				}
+			}
+			doc, ok, why := renderJSONSpelled(h, alt)
 			if !ok {
 				r.Obs = "not-json-representable"
 				r.Count("not_representable:"+why, 1)
